@@ -6,9 +6,13 @@
 /// their own names: `Path`, `Segment`, `Authority`, ...).
 #[macro_export]
 macro_rules! both_families {
-	($($body:tt)*) => {
+	([$($dep:ident),*] $($body:tt)*) => {
+		$crate::both_families!(@gen [$($dep),*] $($body)*);
+	};
+	(@gen [$($dep:ident),*] $($body:tt)*) => {
 		pub mod u {
 			#![allow(unused_imports, dead_code)]
+			$(use $crate::props::$dep::u as $dep;)*
 			use iref::uri::*;
 			pub use iref::{Uri as Ri, UriRef as RiRef, UriBuf as RiBuf, UriRefBuf as RiRefBuf};
 			pub use iref::uri::{UriParts as RiParts, UriRefParts as RiRefParts};
@@ -16,11 +20,13 @@ macro_rules! both_families {
 			pub type Raw = [u8];
 			pub type OwnedRaw = Vec<u8>;
 			pub const FAM: $crate::gen::Fam = $crate::gen::Fam::Uri;
+
 			use super::*;
 			$($body)*
 		}
 		pub mod i {
 			#![allow(unused_imports, dead_code)]
+			$(use $crate::props::$dep::i as $dep;)*
 			use iref::iri::*;
 			pub use iref::{Iri as Ri, IriRef as RiRef, IriBuf as RiBuf, IriRefBuf as RiRefBuf};
 			pub use iref::iri::{IriParts as RiParts, IriRefParts as RiRefParts};
@@ -28,9 +34,13 @@ macro_rules! both_families {
 			pub type Raw = str;
 			pub type OwnedRaw = String;
 			pub const FAM: $crate::gen::Fam = $crate::gen::Fam::Iri;
+
 			use super::*;
 			$($body)*
 		}
+	};
+	($($body:tt)*) => {
+		$crate::both_families!(@gen [] $($body)*);
 	};
 }
 
